@@ -237,6 +237,9 @@ def explore(ctx):
     _explore0(ctx)
     infinity_stream(ctx)
     cc.infinity_tie_stream(ctx, 200 if ctx.quick else 2000, 'c01_inf_tie')
+    from . import grid_common
+    grid_common.reused_adjacency_stream(ctx, 60 if ctx.quick else 600)
+    cc.reused_criteria_stream(ctx, 80 if ctx.quick else 800)
     huge_integer_threshold_stream(ctx)
     cc.rounding_tie(ctx, 400 if ctx.quick else 4000, 'c01_rounding')
     rng = ctx.rng('floatthr')
